@@ -258,6 +258,7 @@ def run(ctx):
                 missing.append("control characters below U+0020")
             if missing:
                 ctx.report(r_esc, "escaper-incomplete", "json_escape is hand-written and does not handle: %s" % ", ".join(missing), esc[0].file, esc[0].line)
+        escaper_eval(ctx, r_esc, esc[0])
     # BYTES: text is never rebuilt from single bytes
     r_bytes = ctx.rule("C17.BYTES", "the exporter never rebuilds text from single UTF-8 bytes (`u8 as char`): content of non-ASCII values must survive")
     ncast = 0
@@ -524,3 +525,75 @@ def once_rule(ctx, syn):
                 if inner or hit:
                     ctx.report(r, "%s|%s" % (f.name, (hit or ["nested"])[0]), "%s escapes `%s`, which already contains escaped text (%s): a backslash, quote or control character in it is escaped twice and the exported string names something else" % (f.name, unparse(arg)[:60], ", ".join(hit) if hit else "a nested json_escape"), f.file, x.get("l"))
     ctx.floor(r, n, 15, "calls of the JSON escaper")
+
+
+# ---------------------------------------------------------------------- ESC: the escaper, evaluated
+ESC_SAMPLES = ["", "plain", 'a"b', '"lead', 'trail"', '"', '""', '"both"', "back\\slash", "trail\\", '\\"', "line\nbreak", "tab\t", "\u0001", "h\u00e9\U0001F600", 'Quoth: "Nevermore"']
+
+
+def escaper_eval(ctx, r_esc, fn):
+    """json_escape(s) between two quotes must be a JSON string literal that reads back as s.  The function is evaluated
+    from its syntax tree (serde_json::to_string is modelled by the JSON string grammar itself) on strings with quotes,
+    backslashes and control characters at the beginning, in the middle and at the end.  A hand-written escaper this
+    evaluator cannot follow is left to the textual completeness test above."""
+    import json as _json
+    from formula import Evaluator, Unknown, Panic, ok, some, is_some
+
+    def h_to_string(ev, recv, args, node, env):
+        if len(args) == 1 and isinstance(args[0], str):
+            return ok(_json.dumps(args[0], ensure_ascii=False))
+        return NotImplemented
+
+    def h_expect(ev, recv, args, node, env):
+        if isinstance(recv, tuple) and len(recv) == 2 and recv[0] in ("ok", "some"):
+            return recv[1]
+        if recv is None or (isinstance(recv, tuple) and recv and recv[0] == "err"):
+            raise Panic("expect", node.get("l"))
+        return NotImplemented
+
+    def h_trim(ev, recv, args, node, env):
+        if isinstance(recv, str) and len(args) == 1 and isinstance(args[0], str) and len(args[0]) == 1:
+            m = node["method"]
+            out = recv
+            if m in ("trim_matches", "trim_start_matches"):
+                out = out.lstrip(args[0])
+            if m in ("trim_matches", "trim_end_matches"):
+                out = out.rstrip(args[0])
+            return out
+        return NotImplemented
+
+    def h_strip(ev, recv, args, node, env):
+        if isinstance(recv, str) and len(args) == 1 and isinstance(args[0], str):
+            m = node["method"]
+            if m == "strip_prefix":
+                return some(recv[len(args[0]):]) if recv.startswith(args[0]) else None
+            return some(recv[:len(recv) - len(args[0])]) if recv.endswith(args[0]) and args[0] else None
+        return NotImplemented
+
+    hooks = {"call:serde_json::to_string": h_to_string, "expect": h_expect, "unwrap": h_expect, "trim_matches": h_trim, "trim_start_matches": h_trim, "trim_end_matches": h_trim,
+             "strip_prefix": h_strip, "strip_suffix": h_strip, "to_string": lambda ev, recv, args, node, env: recv if isinstance(recv, str) else NotImplemented,
+             "into": lambda ev, recv, args, node, env: recv if isinstance(recv, str) else NotImplemented}
+    params = [(p.get("pat") or {}).get("name") for p in fn.sig["inputs"] if (p.get("pat") or {}).get("name") != "self"]
+    if len(params) != 1:
+        return
+    n = 0
+    for smp in ESC_SAMPLES:
+        ev = Evaluator(hooks=hooks)
+        try:
+            got = ev.run_body(fn.body, {params[0]: smp})
+        except Unknown:
+            return      # hand-written: the completeness test decides
+        except Panic as ex:
+            ctx.report(r_esc, "escaper-panics", "json_escape(%r) panics (%s)" % (smp, ex), fn.file, fn.line)
+            return
+        n += 1
+        good = False
+        if isinstance(got, str):
+            try:
+                good = _json.loads('"' + got + '"') == smp
+            except ValueError:
+                good = False
+        if not good:
+            ctx.report(r_esc, "escaper-wrong", "json_escape(%s) gives %s: between the quotes the caller adds this is not a JSON string literal that reads back as the input (a quote or backslash at the edge of the text is lost or left dangling), so the exported Web Annotation is not valid JSON" % (_json.dumps(smp), _json.dumps(got) if isinstance(got, str) else repr(got)), fn.file, fn.line, {"input": smp, "got": got if isinstance(got, str) else repr(got)})
+            return
+    r_esc.hit("escaper-evaluated", sample={"samples": n})
